@@ -76,6 +76,39 @@ func (t *vwTap) take() ([][]byte, []string) {
 var vwKeys = [][]byte{nil, bytes.Repeat([]byte{0x11}, 16), bytes.Repeat([]byte{0x22}, 24), bytes.Repeat([]byte{0x33}, 32), bytes.Repeat([]byte{0x44}, 16)}
 var vwLabels = []string{"", "a", "blue", "blu", "blue2", string(bytes.Repeat([]byte{'L'}, 255)), "red"}
 
+// labels that a comparison which "normalises" operator-supplied names would take for l although they are other
+// labels: l with the case of its letters changed (all of them, the first, the last) and l with a blank put in
+// front / behind.  A node acts on traffic carrying exactly its label, so each of them is a stranger's label.
+func vwNearLabels(l string) []string {
+	// the letters at positions lo..hi-1 switched to the other case
+	flip := func(s string, lo, hi int) string {
+		b := []byte(s)
+		for i := lo; i < hi; i++ {
+			switch {
+			case b[i] >= 'a' && b[i] <= 'z':
+				b[i] -= 'a' - 'A'
+			case b[i] >= 'A' && b[i] <= 'Z':
+				b[i] += 'a' - 'A'
+			}
+		}
+		return string(b)
+	}
+	var cand []string
+	if l != "" {
+		cand = append(cand, flip(l, 0, len(l)), flip(l, 0, 1), flip(l, len(l)-1, len(l)))
+	}
+	cand = append(cand, l+" ", " "+l)
+	seen := map[string]bool{l: true}
+	var out []string
+	for _, c := range cand {
+		if !seen[c] && len(c) <= LabelMaxSize {
+			seen[c] = true
+			out = append(out, c)
+		}
+	}
+	return out
+}
+
 type vwUser struct {
 	mu   sync.Mutex
 	got  [][]byte
@@ -835,7 +868,8 @@ func vwTamper(r *vfRng, st *vfStats) []vfCase {
 		add(9, rc, vwFlip(g.wire, 2+r.n(lh-2), uint(r.n(8))), nil)
 	}
 	// 20: cross-label injection (C16): same keys, another label on the receiver
-	for _, other := range []string{"", "blu", "blue2", "red", string(bytes.Repeat([]byte{'L'}, 254))} {
+	// ... among them labels that differ from the sender's only in letter case or a surrounding blank
+	for _, other := range append([]string{"", "blu", "blue2", "red", string(bytes.Repeat([]byte{'L'}, 254))}, vwNearLabels(g.s.label)...) {
 		if other == g.s.label {
 			continue
 		}
